@@ -288,40 +288,60 @@ theorem ShiftSt.finSt {d : Int} {s s' : St K V} (ok : Bool) (h : ShiftSt d s s')
 
 variable (cfg : Cfg K V) (hs : Handlers K V C E T H D) (e : E)
 
-/-- ProcessDeliver, then ProcessFee (always called), from a given state and volatile memory -/
-def txRun (tx : T) (s0 : St K V) (m : Vol C V) : (Option D × Option Int) × St K V × Vol C V :=
-  let r1 := (hs.deliver tx).run cfg s0 m e
-  let r2 := (hs.fee tx s0.gas.consumed).run cfg r1.2.1 r1.2.2 e
-  ((r1.1, r2.1), r2.2.1, r2.2.2)
+/-- Validate, then (if it succeeded) ProcessDeliver and ProcessFee (always called), from a given
+    state and volatile memory; the response, the state before the session is closed, the memory -/
+def txRun (tx : T) (s0 : St K V) (m : Vol C V) : TxRes D × St K V × Vol C V :=
+  let rv := (hs.validate tx).run cfg s0 m e
+  match rv.1 with
+  | none => ({ ok := false, data := none, gasUsed := 0 }, rv.2.1, rv.2.2)
+  | some _ =>
+    let r1 := (hs.deliver tx).run cfg rv.2.1 rv.2.2 e
+    let r2 := (hs.fee tx s0.gas.consumed).run cfg r1.2.1 r1.2.2 e
+    ({ ok := r1.1.isSome && r2.1.isSome, data := r1.1, gasUsed := r2.1.getD 0 }, r2.2.1, r2.2.2)
 
-theorem txRun_pres (tx : T) (s0 : St K V) (m : Vol C V) : Pres s0 (txRun cfg hs e tx s0 m).2.1 :=
-  (run_pres cfg (hs.deliver tx) s0 m e).trans (run_pres cfg _ _ _ e)
+theorem txRun_pres (tx : T) (s0 : St K V) (m : Vol C V) : Pres s0 (txRun cfg hs e tx s0 m).2.1 := by
+  unfold txRun
+  simp only
+  split
+  · exact run_pres cfg _ _ _ e
+  · exact ((run_pres cfg (hs.validate tx) s0 m e).trans (run_pres cfg _ _ _ e)).trans
+      (run_pres cfg _ _ _ e)
 
 theorem txRun_vol (hnv : DeliverNoVset hs) (tx : T) (s0 : St K V) (m : Vol C V) :
     (txRun cfg hs e tx s0 m).2.2 = m := by
   unfold txRun
   simp only
-  rw [run_noVset cfg _ _ _ e ((hnv tx).2 _), run_noVset cfg _ _ _ e (hnv tx).1]
+  split
+  · exact run_noVset cfg _ _ _ e (hnv tx).1
+  · simp only
+    rw [run_noVset cfg _ _ _ e ((hnv tx).2.2 _), run_noVset cfg _ _ _ e (hnv tx).2.1,
+      run_noVset cfg _ _ _ e (hnv tx).1]
 
 theorem txRun_shift (hb : GasBlind cfg hs) (tx : T) (d : Int) (s s' : St K V) (m : Vol C V)
     (h : ShiftSt d s s') :
     (txRun cfg hs e tx s' m).1 = (txRun cfg hs e tx s m).1 ∧
     ShiftSt d (txRun cfg hs e tx s m).2.1 (txRun cfg hs e tx s' m).2.1 ∧
     (txRun cfg hs e tx s' m).2.2 = (txRun cfg hs e tx s m).2.2 := by
-  obtain ⟨e1, sh1, v1⟩ := hb.deliver tx d s s' m e h
-  have hf := hb.fee tx s.gas.consumed d _ _ ((hs.deliver tx).run cfg s m e).2.2 e sh1
+  obtain ⟨ev, shv, vv⟩ := hb.validate tx d s s' m e h
   unfold txRun
   simp only
-  rw [v1, h.consumed, e1, hf.1, hf.2.2]
-  exact ⟨rfl, hf.2.1, rfl⟩
+  rw [ev, vv, h.consumed]
+  cases ((hs.validate tx).run cfg s m e).1 with
+  | none => exact ⟨rfl, shv, rfl⟩
+  | some u =>
+    simp only
+    obtain ⟨e1, sh1, v1⟩ := hb.deliver tx d _ _ ((hs.validate tx).run cfg s m e).2.2 e shv
+    have hf := hb.fee tx s.gas.consumed d _ _
+      ((hs.deliver tx).run cfg ((hs.validate tx).run cfg s m e).2.1
+        ((hs.validate tx).run cfg s m e).2.2 e).2.2 e sh1
+    rw [v1, e1, hf.1, hf.2.2]
+    exact ⟨rfl, hf.2.1, rfl⟩
 
 /-- the index-miss branch of `deliverTx` -/
 def deliverCore (n : Node K V C T H D) (tx : T) : Node K V C T H D × TxRes D :=
   let x := txRun cfg hs e tx (n.dlv.toSt n.tree).begin n.vol
-  let ok := x.1.1.isSome && x.1.2.isSome
-  let s3 := finSt ok x.2.1
-  ({ n with dlv := ovOf s3, tree := s3.tree, vol := x.2.2, aim := .deliver },
-   { ok := ok, data := x.1.1, gasUsed := x.1.2.getD 0 })
+  let s3 := finSt x.1.ok x.2.1
+  ({ n with dlv := ovOf s3, tree := s3.tree, vol := x.2.2, aim := .deliver }, x.1)
 
 theorem deliverTx_hit (n : Node K V C T H D) (tx : T) (r : TxRes D)
     (h : lookupIdx n.idx (hs.hash tx) = some r) : deliverTx cfg hs e n tx = (n, r) := by
@@ -330,7 +350,10 @@ theorem deliverTx_hit (n : Node K V C T H D) (tx : T) (r : TxRes D)
 theorem deliverTx_miss (n : Node K V C T H D) (tx : T)
     (h : lookupIdx n.idx (hs.hash tx) = none) :
     deliverTx cfg hs e n tx = deliverCore cfg hs e n tx := by
-  unfold deliverTx; rw [h]; rfl
+  unfold deliverTx deliverCore txRun
+  rw [h]
+  simp only
+  cases ((hs.validate tx).run cfg (n.dlv.toSt n.tree).begin n.vol e).1 <;> rfl
 
 theorem checkTx_hit (n : Node K V C T H D) (tx : T) (r : TxRes D)
     (h : lookupIdx n.idx (hs.hash tx) = some r) : checkTx cfg hs e n tx = (n, false) := by
@@ -356,8 +379,7 @@ theorem deliverCore_frame (n : Node K V C T H D) (tx : T) :
   · show (finSt _ _).gas.limit = n.dlv.gas.limit
     rw [finSt_gas, hp.limit]; rfl
   · intro hf
-    have hf' : ((txRun cfg hs e tx (n.dlv.toSt n.tree).begin n.vol).1.1.isSome &&
-        (txRun cfg hs e tx (n.dlv.toSt n.tree).begin n.vol).1.2.isSome) = false := hf
+    have hf' : (txRun cfg hs e tx (n.dlv.toSt n.tree).begin n.vol).1.ok = false := hf
     show (finSt _ _).cache = n.dlv.cache
     rw [hf', finSt_false_cache, hp.cache rfl]; rfl
 
@@ -415,8 +437,7 @@ theorem deliverTx_shift (hb : GasBlind cfg hs) (d : Int) (n n' : Node K V C T H 
     unfold deliverCore
     simp only
     rw [h4, x1, x3]
-    have hfin := x2.finSt ((txRun cfg hs e tx (n.dlv.toSt n.tree).begin n.vol).1.1.isSome &&
-      (txRun cfg hs e tx (n.dlv.toSt n.tree).begin n.vol).1.2.isSome)
+    have hfin := x2.finSt (txRun cfg hs e tx (n.dlv.toSt n.tree).begin n.vol).1.ok
     exact ⟨rfl, hfin.tree, hfin.ovOf, h3, rfl, h5, h6, h7⟩
 
 /-! ### lists of transactions -/
